@@ -2,8 +2,13 @@
 package cluster
 
 import (
+	"time"
+
+	gometrics "github.com/rcrowley/go-metrics"
 	"mosn.io/mosn/pkg/zzverif/verif"
 )
+
+type time_Time = time.Time
 
 // VerifC10_Resource: one operation on an arbitrary resource counter.
 func VerifC10_Resource() {
@@ -40,3 +45,11 @@ func VerifC10_Resource() {
 	verif.Assert(r.Max() == max, "max unchanged")
 	verif.Cover("end")
 }
+
+type zzLBCounter struct{ n int64 }
+
+func (c *zzLBCounter) Clear()                      { c.n = 0 }
+func (c *zzLBCounter) Count() int64                { return c.n }
+func (c *zzLBCounter) Dec(i int64)                 { c.n -= i }
+func (c *zzLBCounter) Inc(i int64)                 { c.n += i }
+func (c *zzLBCounter) Snapshot() gometrics.Counter { return c }
